@@ -307,6 +307,30 @@ def mulAddLoop (SP SQ : PJ) (sm om : Int) : Pt :=
 /-- `_maybe_precompute()` on the object at `i` -/
 def maybePrecomputeObj (i : Nat) : M (List (Int × Int)) := updPJ i precomputeState
 
+/-- `self * self_mul + other * other_mul` on the objects in cells `i`, `j` (the fall-back of `mul_add`) -/
+def mulMulAdd (i j : Nat) (sm om : Int) : M Ref := do
+  let r1 ← mulObj (.obj i) sm
+  let r2 ← mulObj (.obj j) om
+  addObj r1 r2
+
+/-- is the accumulator triple an identity representation? (`not Y or not Z`) -/
+def tripleInf (t : Int × Int × Int) : Bool := t.2.1 == 0 || t.2.2 == 0
+
+/-- `mul_add` once both operands are `PointJacobi` objects (cells `i`, `j`) and the early exits are passed -/
+def mulAddMain (i j : Nat) (sm om : Int) : M Ref := do
+  let tP ← maybePrecomputeObj i                              -- `self._maybe_precompute()`
+  let tQ ← maybePrecomputeObj j                              -- `other._maybe_precompute()`
+  if !tP.isEmpty && !tQ.isEmpty then mulMulAdd i j sm om
+  else do
+    let ord ← updPJ i (fun o => .ok (o, o.val.order))
+    let (sm, om) := match truthy ord with
+      | some n => (pmod sm n, pmod om n)
+      | none => (sm, om)
+    let SP ← updPJ i scaleState                              -- `self.scale()`
+    let SQ ← updPJ j scaleState                              -- `other.scale()`
+    if tripleInf (Gen.k_add SP.x SP.y SP.z SQ.x SQ.y SQ.z SP.curve.p SP.curve.a) then mulMulAdd i j sm om
+    else allocPt (mulAddLoop SP SQ sm om)
+
 /-- `P.mul_add(a, Q, b)` -/
 def mulAddObj (r : Ref) (sm : Int) (s : Ref) (om : Int) : M Ref := do
   match r, ← getPJ r with
@@ -314,34 +338,15 @@ def mulAddObj (r : Ref) (sm : Int) (s : Ref) (om : Int) : M Ref := do
     let other ← getPt s
     if ptIsInf other || om == 0 then mulObj r sm
     else if sm == 0 then mulObj s om
-    else do
+    else
       -- `if not isinstance(other, PointJacobi): other = PointJacobi.from_affine(other)`
-      let j ← (match s, other with
-        | .obj j, .jac _ => (M.pure j : M Nat)
-        | _, .aff A => do
-          match ← alloc (.pj ⟨pjFromAffine A, []⟩) with
-          | .obj j => M.pure j
-          | .inf => raise .other
-        | _, _ => raise .other)
-      let tP ← maybePrecomputeObj i
-      let tQ ← maybePrecomputeObj j
-      if !tP.isEmpty && !tQ.isEmpty then do
-        let r1 ← mulObj (.obj i) sm
-        let r2 ← mulObj (.obj j) om
-        addObj r1 r2
-      else do
-        let some o ← getPJ (.obj i) | raise .other
-        let (sm, om) := match truthy o.val.order with
-          | some n => (pmod sm n, pmod om n)
-          | none => (sm, om)
-        let SP ← updPJ i scaleState                           -- `self.scale()`
-        let SQ ← updPJ j scaleState                           -- `other.scale()`
-        let pApB := Gen.k_add SP.x SP.y SP.z SQ.x SQ.y SQ.z SP.curve.p SP.curve.a
-        if pApB.2.1 == 0 || pApB.2.2 == 0 then do
-          let r1 ← mulObj (.obj i) sm
-          let r2 ← mulObj (.obj j) om
-          addObj r1 r2
-        else allocPt (mulAddLoop SP SQ sm om)
+      match s, other with
+      | .obj j, .jac _ => mulAddMain i j sm om
+      | _, .aff A => do
+        match ← alloc (.pj ⟨pjFromAffine A, []⟩) with
+        | .obj j => mulAddMain i j sm om
+        | .inf => raise .other
+      | _, _ => raise .other
   | _, _ => do let _ ← getPt r; raise .attributeError          -- `Point` has no `mul_add`
 
 /-! ### `==` -/
